@@ -48,6 +48,8 @@ pub fn parse_config_file(path: &Path) -> Result<Config, ConfigParseError> {
     
     for (line_num, line_result) in reader.lines().enumerate() {
         let line = line_result?;
+        // A UTF-8 byte-order mark in front of the first line is not part of the first directive's name
+        let line = if line_num == 0 { line.trim_start_matches('\u{feff}') } else { line.as_str() };
         let line = line.trim();
         
         // Skip empty lines and comments
@@ -55,14 +57,13 @@ pub fn parse_config_file(path: &Path) -> Result<Config, ConfigParseError> {
             continue;
         }
         
-        // Split the line into parameter and value
-        let parts: Vec<&str> = line.splitn(2, ' ').collect();
-        if parts.len() != 2 {
-            return Err(ConfigParseError::Format(line_num + 1, line.to_string()));
-        }
-        
-        let param = parts[0].trim().to_lowercase();
-        let value = parts[1].trim();
+        // Split the line into parameter and value at the first white space of ANY kind: a TAB separates as well as a
+        // blank (cutting at the first blank only turned `requirepass<TAB>"open sesame"` into the unknown directive
+        // `requirepass<TAB>"open`, which was skipped with a warning - the server then ran without a password)
+        let (param, value) = match line.split_once(char::is_whitespace) {
+            Some((param, value)) => (param.to_lowercase(), value.trim()),
+            None => return Err(ConfigParseError::Format(line_num + 1, line.to_string())),
+        };
         
         // Apply configuration parameter
         apply_config_param(&mut config, &param, value, line_num + 1)?;
